@@ -339,6 +339,60 @@ pub fn check_csr_case(case: &CsrCase, info: &mut CaseInfo) -> Result<(), String>
 	Ok(())
 }
 
+/// Parameters imported from a foreign CA certificate (whose extensions may carry any criticality)
+/// and used to issue: the public fields of such parameters are conformant, so the output must be.
+#[derive(Clone, Debug, Serialize, Deserialize, PartialEq, Eq, Hash)]
+pub struct ImportedCase {
+	pub ca: crate::props::c17::ForeignCa,
+	pub flip: u16,
+	pub self_signed: bool,
+}
+
+pub fn check_imported(c: &ImportedCase, info: &mut CaseInfo) -> Result<(), String> {
+	let der = crate::props::c17::forge_ca_with(&c.ca, c.flip)?;
+	if !crate::forge::openssl_accepts_cert(&der, &c.ca.key) {
+		return Err("INTERNAL: OpenSSL does not accept the forged CA certificate".into());
+	}
+	let Ok(imported) = rcgen::CertificateParams::from_ca_cert_der(&der.clone().into()) else {
+		info.class("import-refused");
+		return Ok(());
+	};
+	info.nontrivial = true;
+	info.class(if c.flip != 0 { "foreign-criticality:unusual" } else { "foreign-criticality:usual" });
+	// what the imported parameters say (their public fields), as a spec for the predicates
+	let mut spec = c.ca.spec.clone();
+	spec.serial = Some(Hex(vec![1]));
+	spec.sans = imported.subject_alt_names.iter().map(|_| SanSpec::Dns(String::new())).collect();
+	spec.name_constraints = imported.name_constraints.as_ref().map(|n| NcSpec {
+		permitted: n.permitted_subtrees.iter().map(|_| SubtreeSpec::Dns(String::new())).collect(),
+		excluded: n.excluded_subtrees.iter().map(|_| SubtreeSpec::Dns(String::new())).collect(),
+	});
+	spec.is_ca = match imported.is_ca {
+		rcgen::IsCa::NoCa => IsCaSpec::NoCa,
+		rcgen::IsCa::ExplicitNoCa => IsCaSpec::ExplicitNoCa,
+		rcgen::IsCa::Ca(rcgen::BasicConstraints::Unconstrained) => IsCaSpec::CaUnconstrained,
+		rcgen::IsCa::Ca(rcgen::BasicConstraints::Constrained(n)) => IsCaSpec::CaConstrained(n),
+	};
+	spec.use_aki = imported.use_authority_key_identifier_extension;
+	spec.custom_exts = vec![];
+	if imported.distinguished_name.iter().next().is_none() {
+		spec.dn = DnSpec(vec![]);
+	}
+	let key = crate::keys::make_key(&c.ca.key)?;
+	let cert = if c.self_signed {
+		imported.self_signed(&key)
+	} else {
+		let ik = crate::keys::make_key(&KeySpec { alg: KeyAlg::Ed25519, idx: 2, rsa_hash: RsaHash::Sha256, remote: !cfg!(feature = "crypto") })?;
+		let mut ispec = CertSpec::minimal();
+		ispec.is_ca = IsCaSpec::CaUnconstrained;
+		let ic = crate::mk::cert_params(&ispec)?.self_signed(&ik).map_err(|e| e.to_string())?;
+		imported.signed_by(&key, &ic, &ik)
+	}
+	.map_err(|e| format!("issuing from imported parameters failed: {e}"))?;
+	let (d, _) = decode_cert(cert.der())?;
+	check_cert_profile(&d, &spec).map_err(|e| format!("certificate issued from parameters imported from a foreign CA: {e}"))
+}
+
 /// conformant cert cases plus the `Some(empty)` name-constraints shape
 fn conformant_cert_case() -> BoxedStrategy<CertCase> {
 	(cert_case(CONFORMANT, true), 0u8..10)
@@ -354,7 +408,7 @@ fn conformant_cert_case() -> BoxedStrategy<CertCase> {
 pub fn def() -> PropertyDef {
 	PropertyDef {
 		id: "C05",
-		rule: "Profile-conformant parameter sets (explicit serials positive/non-zero/<= 20 octets, non-empty URI lists, custom OIDs distinct from standard ones) over the C02/C07/C08 spaces -> harness decoder -> predicates for each structural MUST; automatic serial explored over subject keys derived deterministically from generated seeds (Ed25519, P-256, P-384) and, exhaustively, over all 65 536 values of the two leading octets of the key digest it is cut from (32-byte opaque remote keys searched for each prefix; plus rare three-octet patterns such as 00 00 00 / 80 00 7f). Each clause also requires the extension it speaks of to be present when the parameters make the certificate a CA / give it alternative names / name constraints / an AKI. Non-trivial = at least one extension-bearing field (certificates), every CRL/CSR/fresh-key case; the class with SHA-256 top bit set is reported.",
+		rule: "Profile-conformant parameter sets (explicit serials positive/non-zero/<= 20 octets, non-empty URI lists, custom OIDs distinct from standard ones) over the C02/C07/C08 spaces -> harness decoder -> predicates for each structural MUST; automatic serial explored over subject keys derived deterministically from generated seeds (Ed25519, P-256, P-384) and, exhaustively, over all 65 536 values of the two leading octets of the key digest it is cut from (32-byte opaque remote keys searched for each prefix; plus rare three-octet patterns such as 00 00 00 / 80 00 7f). Parameters imported from foreign CA certificates whose extensions carry arbitrary criticality flags are used to issue as well (their public fields are conformant, so the output must be). Each clause also requires the extension it speaks of to be present when the parameters make the certificate a CA / give it alternative names / name constraints / an AKI. Non-trivial = at least one extension-bearing field (certificates), every CRL/CSR/fresh-key case; the class with SHA-256 top bit set is reported.",
 		assumptions: vec!["the harness decoder; OpenSSL EC arithmetic to derive fresh keys from seeds"],
 		subs: vec![
 			prop_sub("cert", 60_000, 800_000, conformant_cert_case, check_cert_case),
@@ -362,6 +416,11 @@ pub fn def() -> PropertyDef {
 				(0u8..3, proptest::collection::vec(any::<u8>(), 32)).prop_map(|(alg, seed)| FreshKeyCase { alg, seed: Hex(seed) }).boxed()
 			}, check_fresh_key),
 			sweep_sub("auto-serial-digest-sweep", serial_sweep_cases, check_serial_sweep),
+			prop_sub("imported-then-issued", 16_000, 200_000, || {
+				(crate::props::c17::foreign_ca(), prop_oneof![1 => Just(0u16), 3 => any::<u16>()], any::<bool>())
+					.prop_map(|(ca, flip, self_signed)| ImportedCase { ca, flip, self_signed })
+					.boxed()
+			}, check_imported),
 			prop_sub("crl", 25_000, 300_000, || crl_case(false, true), check_crl_case),
 			prop_sub("csr", 25_000, 300_000, || csr_case(true), check_csr_case),
 		],
